@@ -6,6 +6,7 @@ import (
 	"fmt"
 
 	webp "github.com/deepteams/webp"
+	"github.com/deepteams/webp/internal/container"
 	"github.com/deepteams/webp/internal/vsim"
 	"github.com/deepteams/webp/mux"
 )
@@ -143,7 +144,7 @@ func GenMuxSpec(r *RNG, maxFrames int) MuxSpec {
 		case 10:
 			m.Calls = append(m.Calls, MuxCall{Kind: r.PickS("seticc", "setexif", "setxmp"), Len: r.Pick(-1, 0, 1, 2, 7, 8, 33)})
 		case 11:
-			m.Calls = append(m.Calls, MuxCall{Kind: "addchunk", ID: r.PickS("ICCP", "EXIF", "XMP ", "ZZZZ"), Len: r.Pick(-1, 0, 1, 4, 9)})
+			m.Calls = append(m.Calls, MuxCall{Kind: "addchunk", ID: r.PickS("ICCP", "EXIF", "XMP ", "ZZZZ", "ZZZZ", "abcd", "Q1 #", "ALPH", "VP8 ", "ANMF", "VP8X", "ANIM", "VP8L"), Len: r.Pick(-1, 0, 1, 4, 9, 26)})
 		}
 	}
 	return m
@@ -273,6 +274,38 @@ type muxModel struct {
 	bg             uint32
 	loop           int
 	cw, ch         int
+	// chunks with ids the format leaves to applications, as last accepted by AddChunk
+	// (only ids that are not part of the container's own structure are tracked)
+	unknown []modelChunk
+}
+
+type modelChunk struct {
+	id   string
+	data []byte
+}
+
+// structuralID: chunk ids with a meaning of their own in the container; whether AddChunk
+// takes them is the muxer's decision and the model expects nothing for them (the walker
+// still decides whether the file is valid).
+func structuralID(id string) bool {
+	switch id {
+	case "VP8X", "ANIM", "ANMF", "VP8 ", "VP8L", "ALPH", "ICCP", "EXIF", "XMP ", "RIFF", "WEBP", "FRGM":
+		return true
+	}
+	return false
+}
+
+func (md *muxModel) setUnknown(id string, data []byte) {
+	out := md.unknown[:0:0]
+	for _, c := range md.unknown {
+		if c.id != id {
+			out = append(out, c)
+		}
+	}
+	if data != nil {
+		out = append(out, modelChunk{id, data})
+	}
+	md.unknown = out
 }
 
 func clampInt(v, lo, hi int) int {
@@ -399,6 +432,10 @@ func applyCalls(spec MuxSpec, blobs []*frameBlob, m *mux.Muxer, md *muxModel, cm
 					md.exif, md.hasEXIF = b, b != nil
 				case "XMP ":
 					md.xmp, md.hasXMP = b, b != nil
+				default:
+					if !structuralID(c.ID) {
+						md.setUnknown(c.ID, b)
+					}
 				}
 			}
 		}
@@ -446,6 +483,7 @@ func (propC14) Execute(pp any, x *X) *Violation {
 			if midErr == nil && !mw.Fired {
 				snap := md
 				snap.frames = append([]modelFrame{}, md.frames...)
+				snap.unknown = append([]modelChunk{}, md.unknown...)
 				q := *p
 				q.Spec = first
 				if viol = checkMuxOutput(&q, &snap, mw.Data); viol != nil {
@@ -594,6 +632,18 @@ func checkMuxOutput(p *C14Params, md *muxModel, data []byte) *Violation {
 	if wf.HasICC != md.hasICC || wf.HasEXIF != md.hasEXIF || wf.HasXMP != md.hasXMP || !sameBytes(wf.ICC, md.icc) || !sameBytes(wf.EXIF, md.exif) || !sameBytes(wf.XMP, md.xmp) {
 		return bad("metadata", "metadata differs: ICC %v/%d vs %v/%d, EXIF %v/%d vs %v/%d, XMP %v/%d vs %v/%d", md.hasICC, len(md.icc), wf.HasICC, len(wf.ICC), md.hasEXIF, len(md.exif), wf.HasEXIF, len(wf.EXIF), md.hasXMP, len(md.xmp), wf.HasXMP, len(wf.XMP))
 	}
+	// application chunks accepted by AddChunk must be in the file
+	for _, u := range md.unknown {
+		found := false
+		for _, c := range wf.Unknown {
+			if c.FourCC == u.id && sameBytes(c.Data, u.data) {
+				found = true
+			}
+		}
+		if !found {
+			return bad("chunk-lost:"+kind, "AddChunk(%q, %d bytes) returned nil but the assembled file has no such chunk (top-level chunks with other ids: %d)", u.id, len(u.data), len(wf.Unknown))
+		}
+	}
 	// (2) the package's demuxer
 	dmx, err := mux.NewDemuxer(data)
 	if err != nil {
@@ -637,6 +687,23 @@ func checkMuxOutput(p *C14Params, md *muxModel, data []byte) *Violation {
 			return bad("demux-metadata", "GetChunk(%s) returns %d bytes, none were set", c.name, len(got))
 		}
 	}
+	for _, c := range wf.Unknown {
+		first := c
+		for _, d := range wf.Unknown {
+			if d.FourCC == c.FourCC {
+				first = d
+				break
+			}
+		}
+		got, err := dmx.GetChunk(mux.ChunkID(binary.LittleEndian.Uint32([]byte(c.FourCC))))
+		if err != nil || !sameBytes(got, first.Data) {
+			return bad("demux-chunk:"+kind, "GetChunk(%q): %d bytes err=%v, the file's first such chunk has %d bytes", c.FourCC, len(got), err, len(first.Data))
+		}
+	}
+	// (3a) the container parser, directly: same structure as the file / the demuxer
+	if v := checkContainerParser(data, wf, dmx, kind, bad); v != nil {
+		return v
+	}
 	// (3) the container parser (through the public header query)
 	feat, err := webp.GetFeatures(bytes.NewReader(data))
 	if err != nil {
@@ -663,6 +730,106 @@ func checkMuxOutput(p *C14Params, md *muxModel, data []byte) *Violation {
 				return bad("still-picture", "assembled still decodes to a different picture than the frame's source file")
 			}
 		}
+	}
+	return nil
+}
+
+// checkContainerParser compares internal/container.Parser (the parser behind GetFeatures,
+// DecodeConfig and the animation reader) with what the file says (walker) and with what the
+// demuxer reports for the same bytes: canvas, flags, animation parameters, every frame's
+// geometry, timing, flags and payloads, and the metadata / application chunks.
+func checkContainerParser(data []byte, wf *WFile, dmx *mux.Demuxer, kind string, bad func(sig, format string, a ...any) *Violation) *Violation {
+	ps, err := container.NewParser(data)
+	if err != nil {
+		return bad("parser-rejects:"+kind, "container.NewParser rejects the assembled file: %v", err)
+	}
+	pf := ps.Features()
+	df := dmx.GetFeatures()
+	cw, ch := pf.Width, pf.Height
+	if wf.HasVP8X {
+		cw, ch = pf.CanvasWidth, pf.CanvasHeight
+	}
+	if cw != wf.CanvasW || ch != wf.CanvasH || cw != df.Width || ch != df.Height {
+		return bad("parsers-disagree:canvas:"+kind, "container parser canvas %dx%d, demuxer %dx%d, file %dx%d", cw, ch, df.Width, df.Height, wf.CanvasW, wf.CanvasH)
+	}
+	if pf.HasAnim != wf.Animated || pf.HasAnim != df.HasAnimation {
+		return bad("parsers-disagree:anim:"+kind, "container parser animated=%v, demuxer %v, file %v", pf.HasAnim, df.HasAnimation, wf.Animated)
+	}
+	if wf.HasVP8X && (pf.HasICCP != wf.HasICC || pf.HasEXIF != wf.HasEXIF || pf.HasXMP != wf.HasXMP || pf.HasICCP != df.HasICC || pf.HasEXIF != df.HasEXIF || pf.HasXMP != df.HasXMP) {
+		return bad("parsers-disagree:flags:"+kind, "metadata flags: container parser %v/%v/%v, demuxer %v/%v/%v, file %v/%v/%v", pf.HasICCP, pf.HasEXIF, pf.HasXMP, df.HasICC, df.HasEXIF, df.HasXMP, wf.HasICC, wf.HasEXIF, wf.HasXMP)
+	}
+	if pf.HasAlpha != df.HasAlpha {
+		return bad("parsers-disagree:alpha:"+kind, "alpha: container parser %v, demuxer %v", pf.HasAlpha, df.HasAlpha)
+	}
+	if wf.Animated && (pf.LoopCount != wf.Loop || pf.BGColor != wf.Bg || pf.LoopCount != dmx.LoopCount() || pf.BGColor != dmx.BackgroundColor()) {
+		return bad("parsers-disagree:anim-params", "container parser loop %d bg %#x, demuxer %d %#x, file %d %#x", pf.LoopCount, pf.BGColor, dmx.LoopCount(), dmx.BackgroundColor(), wf.Loop, wf.Bg)
+	}
+	frs := ps.Frames()
+	if len(frs) != len(wf.Frames) || len(frs) != dmx.NumFrames() {
+		return bad("parsers-disagree:frame-count:"+kind, "container parser %d frames, demuxer %d, file %d", len(frs), dmx.NumFrames(), len(wf.Frames))
+	}
+	for i, fr := range frs {
+		g := wf.Frames[i]
+		di, err := dmx.Frame(i)
+		if err != nil {
+			return bad("demux-frame", "Frame(%d): %v", i, err)
+		}
+		if !sameBytes(fr.Payload, g.Bitstream) || !sameBytes(fr.AlphaData, g.Alph) || (fr.AlphaData == nil) != (g.Alph == nil) || fr.IsLossless != g.Lossless {
+			return bad("parsers-disagree:payload:"+kind, "frame %d: container parser bitstream %d bytes (lossless %v) alpha %d bytes, file %d (%v) / %d", i, len(fr.Payload), fr.IsLossless, len(fr.AlphaData), len(g.Bitstream), g.Lossless, len(g.Alph))
+		}
+		if fr.Width != g.BsW || fr.Height != g.BsH || fr.Width != di.Width || fr.Height != di.Height {
+			return bad("parsers-disagree:frame-size:"+kind, "frame %d: container parser %dx%d, demuxer %dx%d, bitstream %dx%d", i, fr.Width, fr.Height, di.Width, di.Height, g.BsW, g.BsH)
+		}
+		if fr.HasAlpha != di.HasAlpha {
+			return bad("parsers-disagree:frame-alpha:"+kind, "frame %d: container parser alpha %v, demuxer %v (ALPH chunk %v, VP8L alpha bit %v)", i, fr.HasAlpha, di.HasAlpha, g.Alph != nil, g.BsAlpha)
+		}
+		if wf.Animated {
+			pb, pd := fr.BlendMethod == container.BlendNone, fr.DisposeMethod == container.DisposeBackground
+			db, dd := mux.BlendMode(di.BlendMode) == mux.BlendNone, mux.DisposeMode(di.DisposeMode) == mux.DisposeBackground
+			if fr.XOffset != g.X || fr.YOffset != g.Y || fr.Duration != g.Duration || pb == g.Blend || pd != g.DisposeBG ||
+				fr.XOffset != di.OffsetX || fr.YOffset != di.OffsetY || fr.Duration != di.Duration || pb != db || pd != dd {
+				return bad("parsers-disagree:frame-params", "frame %d: container parser offset (%d,%d) duration %d blend-none %v dispose-bg %v; demuxer (%d,%d) %d %v %v; file (%d,%d) %d %v %v", i,
+					fr.XOffset, fr.YOffset, fr.Duration, pb, pd, di.OffsetX, di.OffsetY, di.Duration, db, dd, g.X, g.Y, g.Duration, !g.Blend, g.DisposeBG)
+			}
+		}
+	}
+	// metadata and application chunks, in file order
+	type ck struct {
+		id   string
+		data []byte
+	}
+	var want []ck
+	for _, c := range wf.Chunks {
+		switch c.FourCC {
+		case "VP8X", "ANIM", "ANMF", "VP8 ", "VP8L", "ALPH":
+		default:
+			want = append(want, ck{c.FourCC, c.Data})
+		}
+	}
+	got := ps.Chunks()
+	if !wf.HasVP8X {
+		want = nil
+	}
+	ok := len(got) == len(want)
+	for i := 0; ok && i < len(got); i++ {
+		var id [4]byte
+		binary.LittleEndian.PutUint32(id[:], got[i].FourCC)
+		ok = string(id[:]) == want[i].id && sameBytes(got[i].Payload, want[i].data)
+	}
+	if !ok {
+		ids := func(n int, f func(int) string) string {
+			s := ""
+			for i := 0; i < n; i++ {
+				s += f(i) + " "
+			}
+			return s
+		}
+		return bad("parsers-disagree:chunks:"+kind, "container parser lists the metadata chunks [%s], the file (and the demuxer) has [%s]",
+			ids(len(got), func(i int) string {
+				var id [4]byte
+				binary.LittleEndian.PutUint32(id[:], got[i].FourCC)
+				return fmt.Sprintf("%q/%d", string(id[:]), len(got[i].Payload))
+			}), ids(len(want), func(i int) string { return fmt.Sprintf("%q/%d", want[i].id, len(want[i].data)) }))
 	}
 	return nil
 }
